@@ -198,6 +198,12 @@ func mergeStats(a, b map[string]int) map[string]int {
 
 func (r *runner) run() {
 	steps := r.sc.Steps
+	if r.sc.World.Skew != "" {
+		r.w.sim.Stats["fault.client_clock_skew"]++
+	}
+	if r.sc.World.StmtYield > 0 {
+		r.w.sim.Stats["probe.statement_level_points_enabled"]++
+	}
 	for i := 0; i < len(steps) && !r.failed(); {
 		r.stepIdx = i
 		st := &steps[i]
